@@ -12,11 +12,15 @@ RULE = ('random programs as for C01 whose bodies also contain ! at the top level
         '(never inside a condition or under \\+), with predicates of 2-4 clauses, callers that have their own alternatives, leaf solution counts '
         '0/1/many, if-then-else and negation around. Compared as C01 (implementation / compiled-code model / SLD reference with cut). '
         'Non-trivial: the program contains a cut, some query has an answer, and the predicate with the cut has a later clause or a goal with '
-        'several solutions to the left of the cut.')
+        'several solutions to the left of the cut. Plus program shapes of lib/progs_shapes.py: clause bodies of 6-18 top-level goals (up to '
+        'the nesting limit of the emitted Python) with cuts, cuts nested in ;/-> branches, if-then-else and negation at every position '
+        'including the last ones, later clauses and caller alternatives; directly recursive predicates over lists / s(N) / acyclic graphs '
+        'with random cut placement (base clause ending in !, cut before the recursive call), tail and non-tail recursion and alternatives at '
+        'every level of the recursion.')
 TRUSTED_BASE = []
 
-N_LONG = {'quick': 50, 'thorough': 600}
-N_REC = {'quick': 50, 'thorough': 600}
+N_LONG = {'quick': 50, 'thorough': 400}
+N_REC = {'quick': 50, 'thorough': 400}
 
 def gen(rng, tier):
     n = 220 if tier == 'quick' else 5000
@@ -64,4 +68,16 @@ def nontrivial(case, io):
     return any('cut' in progs.constructs(b) for _, _, b in case['clauses'])
 
 def distribution(cases, obs):
-    return semcheck.stats(cases, obs)
+    d = semcheck.stats(cases, obs)
+    shapes = {}
+    longest = {}
+    for c in cases:
+        k = c.get('shape', 'layered').split(':')[0]
+        shapes[k] = shapes.get(k, 0) + 1
+        for _, _, b in c['clauses']:
+            n = progs_shapes.top_level_goals(b)
+            key = '1-5' if n <= 5 else '6-12' if n <= 12 else '13-15' if n <= 15 else '16+'
+            longest[key] = longest.get(key, 0) + 1
+    d['program_shapes'] = shapes
+    d['top_level_goals_per_clause_body'] = longest
+    return d
